@@ -214,14 +214,14 @@ theorem C18_txt_record_shape (i : Info) :
 /-- In every trace of the response-processing model (any pairing table, any verified sessions,
     any requests on any connections, session teardown after removals, any scheduling of executor
     jobs, loop callbacks and deferred responses, any application calls of `config_changed`,
-    `update_advertisement` and `unpair` in between): whenever a refreshed record caused by request
+    `update_advertisement` and `unpair` in between, `safe_mode` on or off): whenever a refreshed record caused by request
     `rid` is handed to the advertiser, the response of request `rid` was written earlier (`log` is
     newest-first, so `earlier` is the part of the log before it). -/
 theorem C18_advert_after_response (info : Info) (p : Pairings) (sessions : List (Nat × Client))
-    (steps : List Step) (later earlier : List Obs) (rid : Nat) (txt : List (String × String))
-    (h : (run (init info p sessions) steps).log = later ++ Obs.publish (some rid) txt :: earlier) :
+    (safe : Bool) (steps : List Step) (later earlier : List Obs) (rid : Nat) (txt : List (String × String))
+    (h : (run (init info p sessions safe) steps).log = later ++ Obs.publish (some rid) txt :: earlier) :
     ∃ conn, Obs.write conn rid ∈ earlier :=
-  (good_run _ steps (good_init info p sessions)).ord.split later earlier rid txt h
+  (good_run _ steps (good_init info p sessions safe)).ord.split later earlier rid txt h
 
 /-- ... and that write is the response of *that* request on *its* connection: take any trace, any
     request step in it that is delivered on connection `conn` (the identifier it is given is the
@@ -243,7 +243,7 @@ theorem C18_advert_after_own_response (info : Info) (p : Pairings) (sessions : L
       (run (init info p sessions) (pre ++ .request conn r :: post)) := by
     rw [e]
     exact own_run _ _ _ post (own_request _ conn r (fresh_run _ pre (fresh_init info p sessions)) hc)
-  obtain ⟨c, hcm⟩ := C18_advert_after_response info p sessions _ later earlier _ txt h
+  obtain ⟨c, hcm⟩ := C18_advert_after_response info p sessions false _ later earlier _ txt h
   have hin : Obs.write c (run (init info p sessions) pre).nextRid
       ∈ (run (init info p sessions) (pre ++ .request conn r :: post)).log := by
     rw [h]; exact List.mem_append_right _ (List.mem_cons_of_mem _ hcm)
@@ -390,7 +390,7 @@ theorem C18_sf_tracks_pairing (info : Info) (p : Pairings) (sessions : List (Nat
       = some (if (run (init info p sessions) steps).paired.isEmpty then "1" else "0") ∧
     lookup "c#" (advertised (initialRecord info p) (run (init info p sessions) steps).log)
       = some (toString (run (init info p sessions) steps).info.cfg) := by
-  rcases track_run _ _ steps hst (track_init info p sessions) with h | h
+  rcases track_run _ _ steps hst rfl (track_init info p sessions) with h | h
   · rcases h with h | h
     · exact absurd he h
     · exact absurd hl h
@@ -413,7 +413,9 @@ theorem C18_sf_tracks_after_explicit_refresh (info : Info) (p : Pairings) (sessi
       = run (step (run (init info p sessions) pre) .appRefresh) post := by
     rw [run_append]; rfl
   rw [e] at he hl ⊢
-  rcases track_run (initialRecord info p) _ post hst (track_refresh _ _) with h | h
+  have hsm : (step (run (init info p sessions) pre) .appRefresh).safeMode = false :=
+    (step_safeMode _ _).trans (run_safeMode (init info p sessions) pre)
+  rcases track_run (initialRecord info p) _ post hst hsm (track_refresh _ _) with h | h
   · rcases h with h | h
     · exact absurd he h
     · exact absurd hl h
@@ -428,6 +430,18 @@ theorem C18_api_unpair_leaves_flag_stale :
     s.paired = [] ∧ s.execQ = [] ∧ s.loopQ = [] ∧
     advertisedSf (initialRecord ⟨['x'], 1, [], 1, false, ""⟩ [(7, true)]) s.log = some "0" := by
   decide
+
+/-- With `safe_mode` set, `finish_pair` never touches the advertisement: in every trace no
+    record caused by a request is ever published (only application-requested refreshes are), and
+    the flag then stays as it was although the accessory got paired — the documented price of that
+    switch, and the reason `C18_sf_tracks_pairing` is stated for the default. -/
+theorem C18_safe_mode_no_pairing_refresh (info : Info) (p : Pairings) (sessions : List (Nat × Client))
+    (steps : List Step) :
+    (∀ rid txt, Obs.publish (some rid) txt ∉ (run (init info p sessions true) steps).log) ∧
+    (let s := run (init ⟨['x'], 1, [], 1, false, ""⟩ [] [] true) [.request 0 (.pairSetupM5 7 true), .execRun 0]
+     s.paired ≠ [] ∧ s.execQ = [] ∧ s.loopQ = [] ∧
+     advertisedSf (initialRecord ⟨['x'], 1, [], 1, false, ""⟩ []) s.log = some "1") :=
+  ⟨(quiet_run _ steps (quiet_init info p sessions)).log, by decide⟩
 
 /-- Scheduling the refresh before the response write (the defect `finish_pair`'s comment warns
     about) is rejected by the ordering statement: completing pair-setup publishes first. -/
